@@ -499,6 +499,10 @@ pub fn programs(m: Menu, k: usize) -> Vec<Program> {
     }
     if m == Menu::DemoMutations {
         for demo in crate::demomut::DEMOS {
+            // github-demo (535 literal tokens, a 61k-token schema) only at level 3
+            if demo == "github-demo" && k < 3 {
+                continue;
+            }
             let d = crate::demomut::load(demo);
             for target in ["literal", "schema"] {
                 // the big schemas (github: 61k tokens, vite: 4.7k) only at the higher levels
